@@ -1834,3 +1834,59 @@ func requestTargetValidated(target ssa.Value, at *ssa.BasicBlock) bool {
 	return parsed && noSpace
 }
 
+
+// ---------------------------------------------------------------- class D4: calling a function value taken from a map
+
+// classD4: a function value read from a map with a plain lookup is nil when the key is absent. Where the
+// repository deletes entries from that map (so absence is possible for a key that was once valid), calling
+// the looked-up value needs a comma-ok or non-nil test.
+func (e *e3) classD4(rule string, fns []*ssa.Function) {
+	deleted := map[string]string{}
+	for _, fn := range e.p.allRepoFuncs() {
+		for _, b := range fn.Blocks {
+			for _, in := range b.Instrs {
+				c, ok := in.(*ssa.Call)
+				if !ok {
+					continue
+				}
+				if bi, ok := c.Call.Value.(*ssa.Builtin); ok && bi.Name() == "delete" && len(c.Call.Args) == 2 {
+					if f, ok := loadedField(c.Call.Args[0]); ok {
+						deleted[f] = e.p.pos(c.Pos())
+					}
+				}
+			}
+		}
+	}
+	na := newNilAnalysis(e)
+	for _, fn := range fns {
+		for _, b := range fn.Blocks {
+			for _, in := range b.Instrs {
+				c, ok := in.(*ssa.Call)
+				if !ok || c.Call.IsInvoke() {
+					continue
+				}
+				lk, ok := c.Call.Value.(*ssa.Lookup)
+				if !ok || lk.CommaOk {
+					continue
+				}
+				if _, isSig := lk.Type().Underlying().(*types.Signature); !isSig {
+					continue
+				}
+				f, ok := loadedField(lk.X)
+				if !ok {
+					continue
+				}
+				construct := "call:lookup(" + f + ")"
+				pos := e.p.pos(instrPos(c))
+				where, del := deleted[f]
+				if !del {
+					e.r.Discharge(rule, shortFn(fn), construct, pos, "no entry of "+f+" is ever deleted: a key found in the sibling table is present here")
+					continue
+				}
+				ok2, how := na.provedNonNil(lk, b, c)
+				e.r.Decide(ok2, rule, shortFn(fn), construct, pos, how,
+					"a function value is taken from "+f+" by a plain lookup and called, but entries of that map are deleted ("+where+"): for a key whose entry is gone the value is nil and the call panics", e.p.callPath(fn))
+			}
+		}
+	}
+}
